@@ -69,6 +69,8 @@ func init() {
 		if c.Rounds < 48 {
 			c.Rounds = 48
 		}
+		// the producer's LRU caches are not the subject here (C08 is); every (re)open with them on costs ~0.5 s
+		c.DisableLRU = true
 	}
 	cfgTweaks["C15"], cfgTweaks["C16"] = tweak, tweak
 	propBias["C15"], propBias["C16"] = "cpboxes", "cpboxes"
@@ -117,6 +119,7 @@ type cpObs struct {
 	follower *cpConsumer
 	tamperC  *cpConsumer // C15: one consumer re-used for all tamper attempts of the run (ResetStagingBalances between attempts, like the node's download retries)
 	judged   map[string]bool
+	demoed   map[string]bool
 }
 
 func newCpObs(s *Sim) *cpObs {
@@ -128,7 +131,7 @@ func newCpObs(s *Sim) *cpObs {
 	for i := 1; i < cpFaultKinds; i++ {
 		s.statInit("c16.fault." + cpFaultNames[i])
 	}
-	return &cpObs{seen: map[string]bool{}, labels: map[basics.Round]string{}, files: map[basics.Round]*cpFile{}, judged: map[string]bool{}}
+	return &cpObs{seen: map[string]bool{}, labels: map[basics.Round]string{}, files: map[basics.Round]*cpFile{}, judged: map[string]bool{}, demoed: map[string]bool{}}
 }
 
 func (o *cpObs) Nontrivial(s *Sim) bool {
@@ -734,7 +737,7 @@ func (o *cpObs) transferRound(s *Sim, f *cpFile, rg *rand.Rand, benign bool) {
 	nOps := 2 + 1 + len(secs) + 2 + 5 + 1 + int(cpBlocksLookback(&blk)) + 1 + 2
 	plan := cpPlan{crashAt: -1, restartAt: -1}
 	if !benign && rg.IntN(2) == 0 {
-		if rg.IntN(8) == 0 {
+		if rg.IntN(6) == 0 {
 			plan.midSwitch = true
 			desc += " crash=mid-switch"
 		} else {
@@ -799,6 +802,12 @@ func (o *cpObs) transferRound(s *Sim, f *cpFile, rg *rand.Rand, benign bool) {
 			key = "after-crash"
 		}
 		s.log.Add("    transfer error: %s", cpShort(err.Error()))
+		if key == "crash-mid-switch" && kernel.KnownKey("C16", key) {
+			s.known = append(s.known, kernel.Violation{Property: "C16", Oracle: "clean-transfer-failed", Key: key, Step: s.step,
+				Detail: fmt.Sprintf("catchpoint %s: transfer (%s): %v", f.Label, desc, err)})
+			s.stat("known.crash-mid-switch", 1)
+			return
+		}
 		if neutralOnly {
 			s.violate("C16", "clean-transfer-failed", key, fmt.Sprintf("catchpoint %s: an untampered transfer (%s) failed in stage %d after %d operations: %v%s", f.Label, desc, x.stage, x.op, err, o.stagingDiag(s, f, secs, rg)))
 			return
@@ -994,6 +1003,10 @@ func (o *cpObs) compareRestored(s *Sim, c *cpConsumer, R basics.Round, how strin
 		return false
 	}
 	if !o.compareOnline(s, c, R, base, how) {
+		return false
+	}
+	if d := cpExtraneous(s, c); d != "" {
+		s.violate("C16", "restored-state-differs", "extraneous-entries", fmt.Sprintf("consumer restored from catchpoint round %d (%s): %s", R, how, d))
 		return false
 	}
 	c.next = R + 1
